@@ -45,7 +45,16 @@ def parent(a):                 # nested: the child is memoized inside the parent
     return f(a) + "|" + g(a)
 
 
-FNS = {"f": f, "g": g, "ovr": ovr, "part": part, "boom": boom, "parent": parent}
+@m.memento_function(cluster="vf", version="1")
+def child(a):                  # a partition merged onto the partition OBJECT another function returned in this very run
+    log("Body", "child", a)
+    p = part(a)
+    c = InMemoryPartition({"w": payload(a + 1)})
+    c._merge_parent = p
+    return c
+
+
+FNS = {"f": f, "g": g, "ovr": ovr, "part": part, "boom": boom, "parent": parent, "child": child}
 
 
 def check(name, a, result, exc):
@@ -58,6 +67,12 @@ def check(name, a, result, exc):
         return result == payload(a)
     if name == "parent":
         return result == payload(a) + "|" + payload(a)
+    if name == "child":
+        try:
+            return (sorted(result.list_keys()) == ["w", "x", "y", "z"] and result.get("w") == payload(a + 1)
+                    and result.get("x") == payload(a) and result.get("y") == [a, a + 1] and result.get("z") == payload(a))
+        except Exception:
+            return False
     if name == "part":
         try:
             return (sorted(result.list_keys()) == ["x", "y", "z"] and result.get("x") == payload(a)
